@@ -43,6 +43,12 @@ def jobs_for(tier: str) -> list[dict]:
             for via in ("store", "generator"):
                 for name, stmts in small:
                     jobs.append(dict(integ="rdflib", physical=physical, name=name, stmts=stmts, preset=(8, 8, 8), via=via, parsers=parsers, generalized=False, rdf_star=False, **fr))
+        # statements as the bare tuples rdflib itself yields (Graph.triples(), Dataset.quads()), and the option-guessing flat entry point
+        for via in ("generator-plain", "flat", "flat-plain"):
+            if physical == 3:
+                continue  # graphs_stream_frames reads quad.g: generator input must be pyjelly Quad objects
+            for name, stmts in small[:6]:
+                jobs.append(dict(integ="rdflib", physical=physical, name=name, stmts=stmts, preset=(8, 8, 8), via=via, parsers=parsers[:1], generalized=False, rdf_star=False, delimited=True, frame_size=250, logical=None if via.startswith("flat") else flat_lt))
     return jobs
 
 
